@@ -32,6 +32,13 @@ def baseline():
     return subprocess.run(cmd, cwd=orch.REPO, env=orch.cargo_env()).returncode
 
 
+def need_repo_bins():
+    d = orch.build_repo_bins()
+    os.environ["VERIF_MLAR"] = os.path.join(d, "mlar")
+    os.environ["VERIF_LIBMLA_DIR"] = d
+    return d
+
+
 def generic(prop, tier, seed, scaled_quick=("s1",), scaled_thorough=("s1", "s2", "s3"), prod=True,
             budgets=(60, 600), level="exploration", rule="", musthit=(), assumptions=(), replay_candidates=True,
             extra_stages=None):
@@ -234,8 +241,65 @@ def c15(tier, seed):
     )
 
 
+def c18(tier, seed):
+    return generic(
+        "C18", tier, seed, scaled_quick=(), scaled_thorough=(), budgets=(60, 900),
+        rule="round-trip laws on generated pairs (DER and PEM of both halves; public half recomputed with x25519-dalek), on Ed25519 pairs built by the harness with "
+             "curve25519-dalek (clamp(SHA-512(seed)[..32]).B), PEM presentation variants, concatenated PEM public keys; totality: every single-byte substitution and "
+             "every truncation of the four DER forms, PEM mutations, length/tag edits and random bytes through the five public parsers under a panic trap and the "
+             "counting allocator; distinct = distinct input; all non-trivial",
+        musthit=["held:pair", "held:ed25519", "held:pem-many", "hostile:refused", "pem_variant0:accepted"],
+    )
+
+
+def c19(tier, seed):
+    need_repo_bins()
+    return generic(
+        "C19", tier, seed, scaled_quick=(), scaled_thorough=(), budgets=(60, 900),
+        rule="the mlar binary built from the tree is run for keygen --seed and keyderive (X25519 DER/PEM and Ed25519 parents, path lists of length 1..5 with repeated and "
+             "empty paths, unicode / empty / 10 kB strings); the files it writes are compared with the harness's own implementation of the README algorithm (SHA-512, hand-written "
+             "ChaCha20 block function, hand-written HMAC/HKDF-SHA512, x25519 base-point multiple), determinism, composition along (p1..pn) vs p1..pn-1 then pn, public matches private; "
+             "distinct = distinct inputs; all non-trivial",
+        musthit=["keygen", "keyderive:paths1", "keyderive:composition_checked", "held"],
+        assumptions=["README says the HKDF input is 'the clamped private key'; x25519-dalek 2.0's to_bytes() gives the stored bytes before clamping; both readings are accepted and the one observed is reported"],
+    )
+
+
+def c16(tier, seed):
+    need_repo_bins()
+    return generic(
+        "C16", tier, seed, scaled_quick=(), scaled_thorough=(), budgets=(90, 1200),
+        rule="archives whose member names come from a path grammar ('/', '.', '..', normal, empty, 255- and 256-byte, unicode components in every position, trailing "
+             "separators, absolute names pointing into sibling canary directories, names going through a pre-existing symlink) are built with the library and extracted by "
+             "the mlar binary built from the tree in its three forms (whole archive, listed names, glob) with relative and absolute output arguments; observer 1: strace log "
+             "of every successful file-mutating syscall, each path resolved and classified; observer 2: snapshot (type, size, SHA-256) of the sandbox outside the output "
+             "directory before and after; members without '..' that do not collide and fit OS limits must be extracted exactly; distinct = distinct case; non-trivial = >= 2 members",
+        musthit=["musthit:absolute_name", "musthit:dotdot_in_the_middle", "form:whole_archive_linear", "form:listed_names", "form:glob",
+                 "syscalls_inside_output_dir", "members_extracted_exactly", "snapshot_unchanged_outside_output_dir"],
+        assumptions=["a member through a pre-existing symlink, a component over 255 bytes, an over-long path or a file/directory conflict puts the archive under the containment clause only"],
+    )
+
+
+def c17(tier, seed):
+    need_repo_bins()
+    return generic(
+        "C17", tier, seed, scaled_quick=(), scaled_thorough=(), budgets=(120, 1500),
+        rule="generated file trees (empty files, nested directories, unicode and spaces, sizes 0, 1, 128 KiB +- 1, 4 MiB +- 1 in thorough) are archived by `mlar create` "
+             "(file list or directory recursion; none/compress/encrypt/both; levels; 1-3 recipient keys incl. an Ed25519 sample pair) and followed by chains of "
+             "convert / repair to other layer and key choices; after every step list, list -vv (size within rounding, SHA-256), cat, extract (whole and one listed "
+             "name) and to-tar (parsed with the tar crate) are compared with the input files; wrong key, no key and a key for an unencrypted archive must make every "
+             "content command exit non-zero and leave no output content; distinct = distinct case; non-trivial = >= 2 files or a pipeline step",
+        musthit=["cmd:list", "cmd:list-vv", "cmd:cat", "cmd:extract-all", "cmd:extract-listed", "cmd:to-tar", "step:convert", "step:repair",
+                 "keyclause:wrong-key:list", "keyclause:no-key:cat", "keyclause:key-for-unencrypted-archive:repair"],
+    )
+
+
 PROPS = {
     "C01": c01,
+    "C17": c17,
+    "C16": c16,
+    "C18": c18,
+    "C19": c19,
     "C15": c15,
     "C08": c08,
     "C07": c07,
